@@ -9,6 +9,7 @@ import (
 	"time"
 
 	"github.com/massnetorg/mass-core/blockchain"
+	"github.com/massnetorg/mass-core/database/storage"
 	mdebug "github.com/massnetorg/mass-core/debug"
 	"github.com/massnetorg/mass-core/logging"
 	"github.com/massnetorg/mass-core/massutil"
@@ -881,6 +882,25 @@ func (h *NtfnsHandler) asyncImport(walletId string) (finish bool, err error) {
 		stop = ws.SyncedHeight + 1000
 		if stop > h.bestBlock.Height {
 			stop = h.bestBlock.Height
+		}
+		if stop > ws.SyncedHeight {
+			// The address index is read from the node's chain as it is now. The follower may
+			// not have been told yet that the node moved to another branch: scan only while
+			// the node still has, at the top of the range, the block this wallet follows
+			// (blocks are hash-linked, so the whole range then agrees).
+			sha, err := fetcher.FetchBlockShaByHeight(stop)
+			if err != nil && err != storage.ErrNotFound {
+				return err
+			}
+			synced, err := h.walletMgr.syncStore.SyncedBlock(dbtx, stop)
+			if err != nil {
+				return err
+			}
+			if sha == nil || synced == nil || *sha != synced.Hash {
+				logging.CPrint(logging.WARN, "node chain differs from followed chain, retry importing later",
+					logging.LogFormat{"height": stop, "walletId": addrmgr.Name()})
+				return ErrImportingContinuable
+			}
 		}
 		result, err := fetcher.FetchScriptHashRelatedTx(relatedHashes, ws.SyncedHeight+1, stop+1, h.walletMgr.chainParams)
 		if err != nil {
